@@ -1,5 +1,6 @@
 import Sx.Lemmas.FloatSigned
 import Sx.Model.Driver
+import Sx.Model.Beacon
 /-
   Float → integer conversions of the driver that are defined for every input (C08): the facts, proved
   with the rounding lemmas; `Props/C08.lean` states them as property theorems.
@@ -165,4 +166,173 @@ theorem cast_ppm (ppm : F) (h1 : F.gt ppm (.fin (-129)) = true) (h2 : F.lt ppm (
     simp only [e, and_self, if_true]
     exact ⟨_, rfl⟩
 
+end Sx
+
+/-! ### The beacon timers for intervals above the documented maximum -/
+
+namespace Sx
+
+theorem e100 : (2 : Rat) ^ (100 : Int) = 1267650600228229401496703205376 := by norm_num
+theorem em100 : (2 : Rat) ^ (-(100 : Int)) = 1 / 1267650600228229401496703205376 := by
+  rw [zpow_neg, e100]; norm_num
+
+/-- a finite positive float with explicit bounds -/
+def Pos (x : F) (lo hi : Rat) : Prop := ∃ q, x = .fin q ∧ lo ≤ q ∧ q ≤ hi
+
+theorem pos_round (q lo hi : Rat) (hlo : (1 : Rat) / 100000000000000000000 ≤ lo) (h1 : lo ≤ q) (h2 : q ≤ hi) (hhi : hi ≤ 100000000000000000000) :
+    Pos (F.round b32 q) (lo / 2) (2 * hi) := by
+  have q1 : (2 : Rat) ^ (-(100 : Int)) ≤ q := by rw [em100]; linarith
+  have q2 : q ≤ (2 : Rat) ^ (100 : Int) := by rw [e100]; linarith
+  obtain ⟨e, herr⟩ := round32w q q1 q2
+  have hq : 0 < q := by linarith
+  have habs := abs_le.mp herr
+  exact ⟨_, e, by nlinarith [habs.1], by nlinarith [habs.2]⟩
+
+theorem pos_div {x y : F} {a b c d : Rat} (hx : Pos x a b) (hy : Pos y c d) (ha : (1 : Rat) / 1000000 ≤ a) (hb : b ≤ 10000000000000)
+    (hc : (1 : Rat) / 100 ≤ c) (hd : d ≤ 1000) : Pos (F.div b32 x y) (a / d / 2) (2 * (b / c)) := by
+  obtain ⟨p, rfl, p1, p2⟩ := hx
+  obtain ⟨q, rfl, q1, q2⟩ := hy
+  have hq0 : q ≠ 0 := by intro h; rw [h] at q1; linarith
+  have hdiv : F.div b32 (.fin p) (.fin q) = F.round b32 (p / q) := by unfold F.div; simp [hq0]
+  rw [hdiv]
+  have hqpos : 0 < q := by linarith
+  have hdpos : 0 < d := by linarith
+  have hcpos : 0 < c := by linarith
+  have l1 : a / d ≤ p / q := by
+    rw [div_le_div_iff₀ hdpos hqpos]; nlinarith
+  have l2 : p / q ≤ b / c := by
+    rw [div_le_div_iff₀ hqpos hcpos]; nlinarith
+  refine pos_round (p / q) (a / d) (b / c) ?_ l1 l2 ?_
+  · rw [le_div_iff₀ hdpos]; nlinarith
+  · rw [div_le_iff₀ hcpos]; nlinarith
+
+theorem timerCoefficient_some (x : F) (lo hi : Rat) (h : Pos x lo hi) (h0 : 0 ≤ lo) :
+    ∃ c, timerCoefficient x = some c ∧ c ≤ 255 := by
+  obtain ⟨q, rfl, q1, q2⟩ := h
+  have c255 : F.ofNat b32 255 = .fin 255 := by
+    have := ofNat32_exact 255 (by norm_num) (by norm_num); simpa using this
+  unfold timerCoefficient
+  rw [c255]
+  by_cases hg : F.gt (.fin q) (.fin 255) = true
+  · rw [if_pos hg]; exact ⟨255, rfl, le_refl _⟩
+  · rw [if_neg hg]
+    have hq255 : q ≤ 255 := by
+      simp only [F.gt, F.lt, decide_eq_true_eq, not_lt] at hg; exact hg
+    have hq0 : 0 ≤ q := le_trans h0 q1
+    obtain ⟨t0, t1⟩ := truncQ_nonneg q hq0
+    have t255 : F.truncQ q ≤ 255 := by
+      have : ((F.truncQ q : Int) : Rat) ≤ 255 := le_trans t1 hq255
+      exact_mod_cast this
+    unfold F.toUInt
+    have hlt : F.truncQ q < (2 : Int) ^ 8 := by norm_num; omega
+    simp only [t0, hlt, and_self, if_true]
+    exact ⟨_, rfl, by omega⟩
+end Sx
+
+namespace Sx
+open Sx.Model
+
+/-- finite and non-negative, with an upper bound -/
+def NN (x : F) (hi : Rat) : Prop := ∃ q, x = .fin q ∧ 0 ≤ q ∧ q ≤ hi
+
+theorem pos_f32 (q : Rat) (h1 : (1 : Rat) / 100 ≤ q) (h2 : q ≤ 1000) : Pos (f32 q) (q / 2) (2 * q) :=
+  pos_round q q q (by linarith) (le_refl _) (le_refl _) (by linarith)
+
+theorem ofNat_small (c : Nat) (hc : c ≤ 255) : ∃ q : Rat, F.ofNat b32 c = .fin q ∧ q = (c : Rat) := by
+  rcases Nat.eq_zero_or_pos c with h | h
+  · subst h; exact ⟨0, by simpa [F.ofNat] using round_zero, by simp⟩
+  · exact ⟨_, ofNat32_exact c h (by omega), rfl⟩
+
+/-- resolution times an 8-bit coefficient -/
+theorem nn_mul_coef {x : F} {a b : Rat} (hx : Pos x a b) (ha : (1 : Rat) / 100 ≤ a) (hb : b ≤ 1000) (c : Nat) (hc : c ≤ 255) :
+    NN (F.mul b32 x (F.ofNat b32 c)) (2 * (b * 255)) := by
+  obtain ⟨p, rfl, p1, p2⟩ := hx
+  obtain ⟨q, hq, hqc⟩ := ofNat_small c hc
+  rw [hq]
+  have hmul : F.mul b32 (.fin p) (.fin q) = F.round b32 (p * q) := rfl
+  rw [hmul]
+  have hc255 : (c : Rat) ≤ 255 := by exact_mod_cast hc
+  rcases Nat.eq_zero_or_pos c with h | h
+  · subst h; rw [hqc]; simp only [Nat.cast_zero, mul_zero]; rw [round_zero]
+    exact ⟨0, rfl, le_refl _, by nlinarith⟩
+  · have hc1 : (1 : Rat) ≤ (c : Rat) := by exact_mod_cast h
+    have hp0 : 0 < p := by linarith
+    obtain ⟨z, hz, z1, z2⟩ := pos_round (p * q) a (b * 255) (by linarith) (by rw [hqc]; nlinarith) (by rw [hqc]; nlinarith) (by nlinarith)
+    exact ⟨z, hz, by linarith, z2⟩
+
+/-- what is left of the interval after timer 1 -/
+theorem pos_sub {r z R Z : Rat} (hr : R ≤ r) (hr2 : r ≤ 10000000000) (hz0 : 0 ≤ z) (hz : z ≤ Z) (hgap : Z + 1 / 2 ≤ R) :
+    Pos (F.sub b32 (.fin r) (.fin z)) ((R - Z) / 2) (2 * 10000000000) := by
+  have hsub : F.sub b32 (.fin r) (.fin z) = F.round b32 (r + -z) := rfl
+  rw [hsub]
+  exact pos_round (r + -z) (R - Z) 10000000000 (by linarith) (by linarith) (by linarith) (by norm_num)
+
+/-- the interval as a float: at least 133620.99 for every interval above the documented maximum -/
+theorem iv_bound (n : Nat) (h1 : 133620 < n) (h2 : n < 2 ^ 32) :
+    ∃ r : Rat, F.ofNat b32 n = .fin r ∧ (13362099 : Rat) / 100 ≤ r ∧ r ≤ 10000000000 := by
+  unfold F.ofNat
+  have hn1 : (133621 : Rat) ≤ (n : Rat) := by exact_mod_cast h1
+  have hn2 : (n : Rat) < 4294967296 := by exact_mod_cast h2
+  have h100 : (n : Rat) ≤ (2 : Rat) ^ (100 : Int) := by rw [e100]; linarith
+  obtain ⟨e, herr⟩ := round32 (n : Rat) (by linarith) h100
+  have hu : (2 : Rat) ^ (-(24 : Int)) = 1 / 16777216 := by norm_num
+  rw [hu] at herr
+  have habs := abs_le.mp herr
+  exact ⟨_, e, by nlinarith [habs.1], by nlinarith [habs.2]⟩
+
+end Sx
+
+namespace Sx
+open Sx.Model
+
+theorem tc_some' (x : F) (lo hi : Rat) (h : Pos x lo hi) (h0 : 0 ≤ lo) : ∃ c, timerCoefficient x = some c ∧ c ≤ 255 :=
+  timerCoefficient_some x lo hi h h0
+
+set_option hygiene false in
+/-- one branch of the timer selection: `$px` the resolution of timer 1, `$cpos` that its coefficient is a
+    positive float, `$py` the resolution of timer 2 (when the code chooses it by what is left: either of the two) -/
+macro "beacon_branch" px:term "," cpos:term "," py:term : tactic => `(tactic| (
+  obtain ⟨c1, hc1, hc1le⟩ := tc_some' _ _ _ $cpos (by norm_num)
+  rw [hc1]
+  dsimp only
+  obtain ⟨z, hz, z0, z2⟩ := nn_mul_coef $px (by norm_num) (by norm_num) c1 hc1le
+  rw [hz]
+  have hrem := pos_sub (r := r) (z := z) (R := 13362099 / 100) r1 r2 z0 z2 (by norm_num)
+  first
+  | (obtain ⟨c2, hc2, _⟩ := tc_some' _ _ _ (pos_div hrem $py (by norm_num) (by norm_num) (by norm_num) (by norm_num)) (by norm_num)
+     rw [hc2]
+     exact ⟨_, rfl⟩)
+  | (split_ifs <;> first
+      | (obtain ⟨c2, hc2, _⟩ := tc_some' _ _ _ (pos_div hrem P1 (by norm_num) (by norm_num) (by norm_num) (by norm_num)) (by norm_num)
+         rw [hc2]
+         exact ⟨_, rfl⟩)
+      | (obtain ⟨c2, hc2, _⟩ := tc_some' _ _ _ (pos_div hrem P2 (by norm_num) (by norm_num) (by norm_num) (by norm_num)) (by norm_num)
+         rw [hc2]
+         exact ⟨_, rfl⟩))))
+
+set_option maxHeartbeats 1000000 in
+theorem beacon_some_large (n : Nat) (h1 : 133620 < n) (h2 : n < 2 ^ 32) : ∃ t, beaconTimers n = some t := by
+  obtain ⟨r, hr, r1, r2⟩ := iv_bound n h1 h2
+  have P1 := pos_f32 (64/1000) (by norm_num) (by norm_num)
+  have P2 := pos_f32 (41/10) (by norm_num) (by norm_num)
+  have P3 : Pos (f32 262) 262 262 := by
+    have h := ofNat32_exact 262 (by norm_num) (by norm_num)
+    unfold F.ofNat at h
+    refine ⟨262, ?_, le_refl _, le_refl _⟩
+    unfold f32
+    simpa using h
+  have PT : Pos (F.ofNat b32 2) 2 2 := ⟨2, by have := ofNat32_exact 2 (by norm_num) (by norm_num); simpa using this, le_refl _, le_refl _⟩
+  have PIV : Pos (F.fin r) (13362099 / 100) 10000000000 := ⟨r, rfl, r1, r2⟩
+  unfold beaconTimers
+  rw [hr]
+  dsimp only
+  split_ifs
+  all_goals dsimp only
+  all_goals first
+    | (beacon_branch P1, (pos_div (pos_div PIV P1 (by norm_num) (by norm_num) (by norm_num) (by norm_num)) PT (by norm_num) (by norm_num) (by norm_num) (by norm_num)), P1)
+    | (beacon_branch P2, (pos_div PIV P2 (by norm_num) (by norm_num) (by norm_num) (by norm_num)), P1)
+    | (beacon_branch P2, (pos_div (pos_div PIV P2 (by norm_num) (by norm_num) (by norm_num) (by norm_num)) PT (by norm_num) (by norm_num) (by norm_num) (by norm_num)), P2)
+    | (beacon_branch P3, (pos_div (pos_div PIV P3 (by norm_num) (by norm_num) (by norm_num) (by norm_num)) PT (by norm_num) (by norm_num) (by norm_num) (by norm_num)), P3)
+    | (beacon_branch P3, (pos_div PIV P3 (by norm_num) (by norm_num) (by norm_num) (by norm_num)), P1)
+    | (beacon_branch P3, (pos_div PIV P3 (by norm_num) (by norm_num) (by norm_num) (by norm_num)), P2)
 end Sx
